@@ -654,7 +654,7 @@ theorem stepDecode_kind (s : St) : (stepDecode s).2.1.isDecodeKind := by
 theorem sim_after_decode (a : Api) (p : Spec) (pre evs' : List Event) (s' : St) (out : Out)
     (hw : a.whole = p.whole) (hsw : Small p.whole) (hsc : Small p.cur)
     (hfresh : stepDecode p.st = (s', out, pre ++ evs'))
-    (hn : a.n ≠ 0 ∨ s'.rest.length < a.d.rest.length) :
+    (hn : a.n ≠ 0 ∨ a.d.rest = p.cur) :
     Sim (a.advance s') (specDecode p pre.length none).1 ∧
       Meets (a.advance s', out, evs') (specDecode p pre.length none).2 := by
   have hg := stepDecode_good p.st hsc.inv_fresh
@@ -674,9 +674,11 @@ theorem sim_after_decode (a : Api) (p : Spec) (pre evs' : List Event) (s' : St) 
     show (_ ∧ _)
     refine ⟨hf.1, ?_⟩
     show ((a.n + (a.d.rest.length - s'.rest.length)) == 0) = false
+    have hlt := hf.2.1
+    rw [Spec.st_rest] at hlt
     rcases hn with hn | hn
     · simp; omega
-    · simp; omega
+    · rw [hn]; simp; omega
   | err e => exact ⟨hw, hsw, hsc, herr e rfl⟩
   | panic => exact absurd rfl hnp
   | hang => exact absurd rfl hnh
@@ -911,4 +913,513 @@ theorem sim_after_discard (a : Api) (p : Spec) (s' : St) (out : Out)
     rcases hn with hn | hn
     · simp; omega
     · rw [hn, hsr]; simp; omega
+
+
+theorem specStep_decode_alive (p : Spec) (k : Nat) (c : Bool) (hc : c = false)
+    (h : p.ph = .start ∧ k = 0 ∨ p.ph = .header ∧ k = 0 ∨ ∃ l, p.ph = .fileId k l) :
+    specStep p .decode = specDecode p k none ∧ specStep p (.decodeCtx c) = specDecode p k none := by
+  subst hc
+  rcases h with ⟨h, rfl⟩ | ⟨h, rfl⟩ | ⟨l, h⟩ <;> (unfold specStep; simp [h])
+
+/-- `Decode` / `DecodeWithContext` (live context) in a phase where the decoder is alive -/
+theorem sim_decode_alive (a : Api) (p : Spec) (pre : List Event) (c : Bool) (hc : c = false)
+    (hw : a.whole = p.whole) (hsw : Small p.whole) (hsc : Small p.cur)
+    (hph : p.ph = .start ∧ pre.length = 0 ∨ p.ph = .header ∧ pre.length = 0 ∨ ∃ l, p.ph = .fileId pre.length l)
+    (hfresh : stepDecode p.st = ((stepDecode a.d).1, (stepDecode a.d).2.1, pre ++ (stepDecode a.d).2.2))
+    (he : a.d.q.err = none) (hn : a.n ≠ 0 ∨ a.d.rest = p.cur) :
+    (Sim (step a .decode).1 (specStep p .decode).1 ∧ Meets (step a .decode) (specStep p .decode).2) ∧
+    (Sim (step a (.decodeCtx c)).1 (specStep p (.decodeCtx c)).1 ∧ Meets (step a (.decodeCtx c)) (specStep p (.decodeCtx c)).2) := by
+  have hspec := specStep_decode_alive p pre.length c hc hph
+  rw [hspec.1, hspec.2]
+  subst hc
+  have h1 := sim_after_decode a p pre _ _ _ hw hsw hsc hfresh hn
+  have h2 : step a (.decodeCtx false) = step a .decode := by
+    show (a.advance (stepDecodeCtx false a.d).1, _, _) = (a.advance (stepDecode a.d).1, _, _)
+    unfold stepDecodeCtx stepDecode
+    rw [he]
+    rfl
+  rw [h2]
+  exact ⟨h1, h1⟩
+
+/-- `DecodeWithContext` with a cancelled context on a live decoder: the context error, sticky -/
+theorem sim_cancel (a : Api) (p : Spec) (hw : a.whole = p.whole) (hsw : Small p.whole) (hsc : Small p.cur)
+    (hph : p.ph = .start ∨ p.ph = .header ∨ ∃ k l, p.ph = .fileId k l) (he : a.d.q.err = none) :
+    Sim (step a (.decodeCtx true)).1 (specStep p (.decodeCtx true)).1 ∧
+      Meets (step a (.decodeCtx true)) (specStep p (.decodeCtx true)).2 := by
+  have hspec : specStep p (.decodeCtx true) = ({ p with ph := .dead .ctx }, some (.err .ctx, [])) := by
+    rcases hph with h | h | ⟨k, l, h⟩ <;> (unfold specStep; simp [h])
+  rw [hspec]
+  have hm : step a (.decodeCtx true) = (a.advance { a.d with q := { a.d.q with err := some .ctx } }, .err .ctx, []) := by
+    show (a.advance (stepDecodeCtx true a.d).1, _, _) = _
+    unfold stepDecodeCtx
+    rw [he]
+    rfl
+  rw [hm]
+  exact ⟨⟨hw, hsw, hsc, rfl⟩, by intro x hx; cases hx; rfl⟩
+
+/-- `CheckIntegrity` (+ re-seek) on a live decoder: whatever it met, the decoder is as new at the start of the stream -/
+theorem sim_ci (a : Api) (p : Spec) (hw : a.whole = p.whole) (hsw : Small p.whole) (hsc : Small p.cur)
+    (hph : p.ph = .start ∨ p.ph = .header ∨ ∃ k l, p.ph = .fileId k l) (he : a.d.q.err = none) (ho : a.d.o = p.o)
+    (hi : Inv a.d) :
+    Sim (step a .checkIntegrity).1 (specStep p .checkIntegrity).1 ∧
+      Meets (step a .checkIntegrity) (specStep p .checkIntegrity).2 := by
+  have hspec : specStep p .checkIntegrity = ({ p with cur := p.whole, atStart := true, ph := .start }, none) := by
+    rcases hph with h | h | ⟨k, l, h⟩ <;> (unfold specStep; simp [h])
+  rw [hspec]
+  refine ⟨?_, by intro x hx; cases hx⟩
+  have hg := stepCheckIntegrity_good a ⟨hi, hw ▸ hsw.1⟩
+  show Sim (stepCheckIntegrity a).1 _
+  unfold stepCheckIntegrity at hg ⊢
+  simp only [he] at hg ⊢
+  have fin : Sim { d := { resetSeq a.d with rest := a.whole }, whole := a.whole, n := 0 }
+      { p with cur := p.whole, atStart := true, ph := .start } := by
+    refine ⟨hw, hsw, hsw, ?_⟩
+    show (_ ∧ _)
+    refine ⟨?_, rfl⟩
+    show _ = St.fresh p.o p.whole
+    simp only [resetSeq, St.fresh, ho, hw]
+  rcases hc : ciLoop (fuelOf a.d) (a.n == 0) 0 { a.d with o := { a.d.o with chk := true } } with ⟨seq, r⟩
+  rw [hc] at hg
+  cases r with
+  | ok u => exact fin
+  | err e => exact fin
+  | panic => exact absurd rfl hg.1
+  | hang => exact absurd rfl hg.2.1
+
+
+theorem hdr_cases (p : Spec) (hsc : Small p.cur) :
+    (∃ s1, headerOnce p.st = .ok s1) ∨ (∃ e, headerOnce p.st = .err e) := by
+  have := headerOnce_sat p.st hsc.inv_fresh rfl
+  cases h : headerOnce p.st with
+  | ok s1 => exact Or.inl ⟨s1, rfl⟩
+  | err e => exact Or.inr ⟨e, rfl⟩
+  | panic => rw [h] at this; exact this.elim
+  | hang => rw [h] at this; exact this.elim
+
+/-- the header was read successfully from the start of the sequence: phase `header` -/
+theorem sim_to_header (a : Api) (p : Spec) (s1 : St) (hw : a.whole = p.whole) (hsw : Small p.whole) (hsc : Small p.cur)
+    (had : a.d = p.st) (hh : headerOnce p.st = .ok s1) :
+    Sim (a.advance s1) { p with ph := .header, atStart := false } := by
+  refine ⟨hw, hsw, hsc, ?_⟩
+  show (_ ∧ _)
+  refine ⟨hh, ?_⟩
+  show a.n + (a.d.rest.length - s1.rest.length) ≠ 0
+  have := (header_fresh p.o p.cur s1 hsc.1 hh).2.2.1
+  rw [had, Spec.st_rest]
+  omega
+
+/-- the header read failed at the start of the sequence: phase `peekFailed` -/
+theorem sim_to_hdrFailed (a : Api) (p : Spec) (e : Err) (s' : St) (hw : a.whole = p.whole) (hsw : Small p.whole)
+    (hsc : Small p.cur) (hh : headerOnce p.st = .err e) (hs' : s'.q.err = some e) :
+    Sim (a.advance s') { p with ph := .peekFailed e 0 } := by
+  have := decode_when_header_fails p.st e rfl hh
+  refine ⟨hw, hsw, hsc, ?_⟩
+  show (_ ∧ _ ∧ _)
+  refine ⟨hs', ?_, ?_⟩
+  · show (stepDecode p.st).2.1 = _
+    rw [this]
+  · show (stepDecode p.st).2.2.drop 0 = []
+    rw [this]; rfl
+
+theorem sim_start_peekHeader (a : Api) (p : Spec) (hw : a.whole = p.whole) (hsw : Small p.whole) (hsc : Small p.cur)
+    (hph : p.ph = .start) (had : a.d = p.st) :
+    Sim (step a .peekHeader).1 (specStep p .peekHeader).1 ∧ Meets (step a .peekHeader) (specStep p .peekHeader).2 := by
+  have hspec : specStep p .peekHeader = ((specPeekHeader p).1, some ((specPeekHeader p).2, [])) := by
+    unfold specStep; simp [hph]
+  rw [hspec]
+  show Sim (a.advance (stepPeekHeader a.d).1) _ ∧ Meets (a.advance (stepPeekHeader a.d).1, (stepPeekHeader a.d).2.1, (stepPeekHeader a.d).2.2) _
+  rw [had]
+  unfold specPeekHeader
+  rcases hdr_cases p hsc with ⟨s1, hh⟩ | ⟨e, hh⟩
+  · have hp := (stepPeekHeader_after_header p.st s1 hsc.inv_fresh rfl hh).2
+    rw [hp]
+    exact ⟨sim_to_header a p s1 hw hsw hsc had hh, by intro x hx; cases hx; rfl⟩
+  · have hp : stepPeekHeader p.st = ((failHeader p.st (Res.err e : Res St)).1, .err e, []) := by
+      unfold stepPeekHeader
+      show (match headerOnce p.st with | .ok s1 => _ | r => _) = _
+      rw [hh]
+      rfl
+    rw [hp]
+    exact ⟨sim_to_hdrFailed a p e _ hw hsw hsc hh rfl, by intro x hx; cases hx; rfl⟩
+
+
+theorem sim_start_next (a : Api) (p : Spec) (hw : a.whole = p.whole) (hsw : Small p.whole) (hsc : Small p.cur)
+    (hph : p.ph = .start) (had : a.d = p.st) (hn : (a.n == 0) = p.atStart) :
+    Sim (step a .next).1 (specStep p .next).1 ∧ Meets (step a .next) (specStep p .next).2 := by
+  show Sim (a.advance (stepNext (a.n == 0) a.d).1) _ ∧
+    Meets (a.advance (stepNext (a.n == 0) a.d).1, (stepNext (a.n == 0) a.d).2.1, (stepNext (a.n == 0) a.d).2.2) _
+  rw [hn, had]
+  cases hat : p.atStart with
+  | true =>
+    have hspec : specStep p .next = (p, some (.bool true, [])) := by unfold specStep; simp [hph, hat]
+    rw [hspec]
+    have hm : stepNext true p.st = (p.st, .bool true, []) := rfl
+    rw [hm]
+    refine ⟨⟨hw, hsw, hsc, ?_⟩, by intro x hx; cases hx; rfl⟩
+    rw [hph]
+    show (_ ∧ _)
+    refine ⟨had ▸ rfl, ?_⟩
+    show ((a.n + (a.d.rest.length - p.st.rest.length)) == 0) = p.atStart
+    rw [had, Nat.sub_self, Nat.add_zero, hn]
+  | false =>
+    have hspec : specStep p .next = ((specPeekHeader p).1,
+        some (.bool (match (specPeekHeader p).2 with | .err _ => false | _ => true), [])) := by
+      unfold specStep; simp only [hph, hat]; rfl
+    rw [hspec]
+    unfold specPeekHeader
+    rcases hdr_cases p hsc with ⟨s1, hh⟩ | ⟨e, hh⟩
+    · have hp := (stepPeekHeader_after_header p.st s1 hsc.inv_fresh rfl hh).2
+      rw [hp]
+      have hm : stepNext false p.st = (s1, .bool true, []) := by
+        unfold stepNext
+        show (match headerOnce p.st with | .ok s1 => _ | .err e => _ | .panic => _ | .hang => _) = _
+        rw [hh]
+      rw [hm]
+      exact ⟨sim_to_header a p s1 hw hsw hsc had hh, by intro x hx; cases hx; rfl⟩
+    · have hp : stepPeekHeader p.st = ((failHeader p.st (Res.err e : Res St)).1, .err e, []) := by
+        unfold stepPeekHeader
+        show (match headerOnce p.st with | .ok s1 => _ | r => _) = _
+        rw [hh]
+        rfl
+      rw [hp]
+      have hm : stepNext false p.st = ({ p.st with q := { p.st.q with hdrDone := true, err := some e } }, .bool false, []) := by
+        unfold stepNext
+        show (match headerOnce p.st with | .ok s1 => _ | .err e => _ | .panic => _ | .hang => _) = _
+        rw [hh]
+      rw [hm]
+      exact ⟨sim_to_hdrFailed a p e _ hw hsw hsc hh rfl, by intro x hx; cases hx; rfl⟩
+
+/-- `PeekFileId` where the decoder computes what a new decoder computes (phases `start`, `header`) -/
+theorem sim_peekFileId_fresh (a : Api) (p : Spec) (hw : a.whole = p.whole) (hsw : Small p.whole) (hsc : Small p.cur)
+    (hph : p.ph = .start ∨ p.ph = .header) (heq : stepPeekFileId a.d = stepPeekFileId p.st)
+    (hnp : ∀ s1, headerOnce p.st = .ok s1 → peekPast (fuelOf s1) s1 = false)
+    (hn : a.n ≠ 0 ∨ a.d.rest = p.cur) :
+    Sim (step a .peekFileId).1 (specStep p .peekFileId).1 ∧ Meets (step a .peekFileId) (specStep p .peekFileId).2 := by
+  have hspec : specStep p .peekFileId = specPeekFileId p := by
+    rcases hph with h | h <;> (unfold specStep; simp [h])
+  rw [hspec]
+  show Sim (a.advance (stepPeekFileId a.d).1) _ ∧
+    Meets (a.advance (stepPeekFileId a.d).1, (stepPeekFileId a.d).2.1, (stepPeekFileId a.d).2.2) _
+  rw [heq]
+  unfold specPeekFileId
+  rcases hdr_cases p hsc with ⟨s1, hh⟩ | ⟨e, hh⟩
+  · have h1 := headerOnce_ok p.st s1 hsc.inv_fresh rfl hh
+    have hf := header_fresh p.o p.cur s1 hsc.1 hh
+    have hpl := peekLoop_sat (fuelOf s1) s1 h1.1 (by simp [fuelOf])
+    have hpp := hnp s1 hh
+    have hstep : stepPeekFileId p.st = (match peekLoop (fuelOf s1) s1 with
+        | (s2, evs, .ok ()) => (s2, (match s2.q.fileId with | some f => Out.fileId f | none => .panic), evs)
+        | (s2, evs, r) => ((fail s2 r).1, (fail s2 r).2, evs)) := by
+      unfold stepPeekFileId
+      show (match headerOnce p.st with | .ok s1 => _ | r => _) = _
+      rw [hh]
+      rfl
+    rw [hstep]
+    rcases hpk : peekLoop (fuelOf s1) s1 with ⟨s2, evs, r⟩
+    rw [hpk] at hpl
+    obtain ⟨hend, i2, r2, hfid⟩ := hpl
+    simp only at hend i2 r2 hfid
+    cases r with
+    | ok u =>
+      have hsome := hfid rfl
+      cases hq : s2.q.fileId with
+      | none => rw [hq] at hsome; cases hsome
+      | some f =>
+        simp only [hq]
+        refine ⟨⟨hw, hsw, hsc, ?_⟩, by intro x hx; cases hx; rfl⟩
+        show ∃ s1' evs1, _
+        refine ⟨s1, evs, hh, hpk, rfl, rfl, hpp, ?_⟩
+        show a.n + (a.d.rest.length - s2.rest.length) ≠ 0
+        rcases hn with hn | hn
+        · omega
+        · have := r2.len; have := hf.2.2.1; rw [hn]; omega
+    | err e =>
+      simp only [fail]
+      have hd := decode_when_peek_fails p.st s1 s2 evs e hsc.inv_fresh rfl hh hpk hpp
+      refine ⟨⟨hw, hsw, hsc, ?_⟩, by intro x hx; cases hx; rfl⟩
+      show (_ ∧ (stepDecode p.st).2.1 = _ ∧ (stepDecode p.st).2.2.drop evs.length = [])
+      refine ⟨rfl, by rw [hd], by rw [hd]; simp⟩
+    | panic => exact hend.elim
+    | hang => exact hend.elim
+  · have hp : stepPeekFileId p.st = ((failHeader p.st (Res.err e : Res St)).1, .err e, []) := by
+      unfold stepPeekFileId
+      show (match headerOnce p.st with | .ok s1 => _ | r => _) = _
+      rw [hh]
+      rfl
+    rw [hp]
+    exact ⟨sim_to_hdrFailed a p e _ hw hsw hsc hh rfl, by intro x hx; cases hx; rfl⟩
+
+
+theorem stepDiscard_fresh_events (o : Opts) (l : List Nat) (hs : IsBytes l) : (stepDiscard (St.fresh o l)).2.2 = [] := by
+  rcases discard_fresh o l hs with ⟨e, s', h, _⟩ | ⟨s1, _, h, _⟩ <;> rw [h]
+
+/-- `Discard` in a live phase whose position is comparable with a new decoder's -/
+theorem sim_discard_alive (a : Api) (p : Spec) (hw : a.whole = p.whole) (hsw : Small p.whole) (hsc : Small p.cur)
+    (hph : p.ph = .start ∨ p.ph = .header ∨ ∃ k, p.ph = .fileId k false)
+    (hout : (stepDiscard a.d).2 = (stepDiscard p.st).2)
+    (hdone : (stepDiscard a.d).2.1 = .done → (stepDiscard a.d).1 = (stepDiscard p.st).1)
+    (herr : ∀ e, (stepDiscard a.d).2.1 = .err e → (stepDiscard a.d).1.q.err = some e)
+    (hn : a.n ≠ 0 ∨ a.d.rest = p.cur) :
+    Sim (step a .discard).1 (specStep p .discard).1 ∧ Meets (step a .discard) (specStep p .discard).2 := by
+  have hspec : specStep p .discard = specDiscard p := by
+    rcases hph with h | h | ⟨k, h⟩ <;> (unfold specStep; simp [h])
+  rw [hspec]
+  have hev := stepDiscard_fresh_events p.o p.cur hsc.1
+  have h2 : (stepDiscard a.d).2 = ((stepDiscard a.d).2.1, []) := by
+    rw [hout]; exact Prod.ext rfl hev
+  have := sim_after_discard a p (stepDiscard a.d).1 (stepDiscard a.d).2.1 hw hsw hsc
+    (by rw [← hout, h2]) hdone herr hn
+  show Sim (a.advance (stepDiscard a.d).1) _ ∧ Meets (a.advance (stepDiscard a.d).1, (stepDiscard a.d).2.1, (stepDiscard a.d).2.2) _
+  rw [show (stepDiscard a.d).2.2 = [] from by rw [h2]]
+  exact this
+
+
+theorem Api.advance_same (a : Api) : a.advance a.d = a := by
+  cases a; simp [Api.advance]
+
+theorem kfPeekPast_false (a : Api) (he : a.d.q.err = none) (s1 : St) (hh : headerOnce a.d = .ok s1)
+    (h : kfPeekPast a .peekFileId = false) : peekPast (fuelOf s1) s1 = false := by
+  unfold kfPeekPast at h
+  rw [he, hh] at h
+  simpa using h
+
+theorem sim_start (a : Api) (p : Spec) (op : Op) (hph : p.ph = .start) (hs : Sim a p)
+    (hop : ∀ o b, op ≠ .reset o b) (hnp : kfPeekPast a op = false) :
+    Sim (step a op).1 (specStep p op).1 ∧ Meets (step a op) (specStep p op).2 := by
+  obtain ⟨hw, hsw, hsc, hm⟩ := hs
+  rw [hph] at hm
+  obtain ⟨had, hn⟩ := hm
+  have he : a.d.q.err = none := by rw [had]; rfl
+  have hi : Inv a.d := by rw [had]; exact hsc.inv_fresh
+  have hdec := sim_decode_alive a p [] false rfl hw hsw hsc (Or.inl ⟨hph, rfl⟩) (by rw [had]; rfl) he
+    (Or.inr (by rw [had]; rfl))
+  cases op with
+  | reset o b => exact absurd rfl (hop o b)
+  | decode => exact hdec.1
+  | decodeCtx c =>
+    cases c with
+    | false => exact hdec.2
+    | true => exact sim_cancel a p hw hsw hsc (Or.inl hph) he
+  | peekHeader => exact sim_start_peekHeader a p hw hsw hsc hph had
+  | peekFileId =>
+    refine sim_peekFileId_fresh a p hw hsw hsc (Or.inl hph) (by rw [had]) ?_ (Or.inr (by rw [had]; rfl))
+    intro s1 hh
+    exact kfPeekPast_false a he s1 (by rw [had]; exact hh) hnp
+  | discard =>
+    have hg := stepDiscard_good a.d hi
+    exact sim_discard_alive a p hw hsw hsc (Or.inl hph) (by rw [had]) (by intro _; rw [had]) hg.2.2.2
+      (Or.inr (by rw [had]; rfl))
+  | next => exact sim_start_next a p hw hsw hsc hph had hn
+  | checkIntegrity => exact sim_ci a p hw hsw hsc (Or.inl hph) he (by rw [had]; rfl) hi
+
+theorem sim_header (a : Api) (p : Spec) (op : Op) (hph : p.ph = .header) (hs : Sim a p)
+    (hop : ∀ o b, op ≠ .reset o b) (hnp : kfPeekPast a op = false) :
+    Sim (step a op).1 (specStep p op).1 ∧ Meets (step a op) (specStep p op).2 := by
+  obtain ⟨hw, hsw, hsc, hm⟩ := hs
+  have hsame : Sim a p := ⟨hw, hsw, hsc, hm⟩
+  rw [hph] at hm
+  obtain ⟨hh, hn⟩ := hm
+  have h1 := headerOnce_ok p.st a.d hsc.inv_fresh rfl hh
+  have hf := header_fresh p.o p.cur a.d hsc.1 hh
+  have he : a.d.q.err = none := h1.2.2.2.2.1
+  have hi : Inv a.d := h1.1
+  have hdec := sim_decode_alive a p [] false rfl hw hsw hsc (Or.inr (Or.inl ⟨hph, rfl⟩))
+    (by rw [stepDecode_after_header p.st a.d hsc.inv_fresh rfl hh]; rfl) he (Or.inl hn)
+  cases op with
+  | reset o b => exact absurd rfl (hop o b)
+  | decode => exact hdec.1
+  | decodeCtx c =>
+    cases c with
+    | false => exact hdec.2
+    | true => exact sim_cancel a p hw hsw hsc (Or.inr (Or.inl hph)) he
+  | peekHeader =>
+    have hspec : specStep p .peekHeader = (p, some ((stepPeekHeader p.st).2.1, [])) := by unfold specStep; simp [hph]
+    rw [hspec]
+    have hp := stepPeekHeader_after_header p.st a.d hsc.inv_fresh rfl hh
+    show Sim (a.advance (stepPeekHeader a.d).1) _ ∧ Meets (a.advance (stepPeekHeader a.d).1, (stepPeekHeader a.d).2.1, (stepPeekHeader a.d).2.2) _
+    rw [hp.1, hp.2, Api.advance_same]
+    exact ⟨hsame, by intro x hx; cases hx; rfl⟩
+  | peekFileId =>
+    refine sim_peekFileId_fresh a p hw hsw hsc (Or.inr hph) (stepPeekFileId_after_header p.st a.d hsc.inv_fresh rfl hh) ?_ (Or.inl hn)
+    intro s1 hh'
+    rw [hh] at hh'
+    cases hh'
+    exact kfPeekPast_false a he a.d h1.2.2.2.2.2.2 hnp
+  | discard =>
+    have hd := discard_mid p.o p.cur hsc.1 a.d a.d [] hh rfl (by rw [hf.1]; rfl) (by rw [hf.1]; omega) rfl hf.2.2.2.1 he h1.2.2.2.1
+    exact sim_discard_alive a p hw hsw hsc (Or.inr (Or.inl hph)) hd.1 hd.2.1 hd.2.2 (Or.inl hn)
+  | next =>
+    have hspec : specStep p .next = (p, some (.bool true, [])) := by unfold specStep; simp [hph]
+    rw [hspec]
+    have hm : stepNext (a.n == 0) a.d = (a.d, .bool true, []) := by
+      have : (a.n == 0) = false := by simp; exact hn
+      rw [this]
+      unfold stepNext
+      rw [he]
+      show (match headerOnce a.d with | .ok s1 => _ | .err e => _ | .panic => _ | .hang => _) = _
+      rw [h1.2.2.2.2.2.2]
+    show Sim (a.advance (stepNext (a.n == 0) a.d).1) _ ∧ Meets (a.advance (stepNext (a.n == 0) a.d).1, (stepNext (a.n == 0) a.d).2.1, (stepNext (a.n == 0) a.d).2.2) _
+    rw [hm, Api.advance_same]
+    exact ⟨hsame, by intro x hx; cases hx; rfl⟩
+  | checkIntegrity => exact sim_ci a p hw hsw hsc (Or.inr (Or.inl hph)) he hf.2.2.2.1 hi
+
+
+theorem sim_fileId (a : Api) (p : Spec) (op : Op) (k : Nat) (lost : Bool) (hph : p.ph = .fileId k lost) (hs : Sim a p)
+    (hop : ∀ o b, op ≠ .reset o b) :
+    Sim (step a op).1 (specStep p op).1 ∧ Meets (step a op) (specStep p op).2 := by
+  obtain ⟨hw, hsw, hsc, hm⟩ := hs
+  have hsame : Sim a p := ⟨hw, hsw, hsc, hm⟩
+  rw [hph] at hm
+  obtain ⟨s1, evs1, hh, hpk, hk, hlost, hpp, hn⟩ := hm
+  have h1 := headerOnce_ok p.st s1 hsc.inv_fresh rfl hh
+  have hf := header_fresh p.o p.cur s1 hsc.1 hh
+  have hpl := peekLoop_sat (fuelOf s1) s1 h1.1 (by simp [fuelOf])
+  rw [hpk] at hpl
+  obtain ⟨_, hi, r2, hfid⟩ := hpl
+  simp only at hi r2 hfid
+  have hfid' := hfid trivial
+  have he : a.d.q.err = none := by rw [r2.err]; exact h1.2.2.2.2.1
+  have hd : a.d.q.hdrDone = true := by rw [r2.hdrDone]; exact h1.2.2.2.1
+  have ho : a.d.o = p.o := by rw [r2.o]; exact hf.2.2.2.1
+  have hho := headerOnce_done a.d hd he
+  have hdec := sim_decode_alive a p evs1 false rfl hw hsw hsc (Or.inr (Or.inr ⟨lost, by rw [hk]; exact hph⟩))
+    (decode_after_peek p.st s1 a.d evs1 hsc.inv_fresh rfl hh hpk hpp) he (Or.inl hn)
+  cases op with
+  | reset o b => exact absurd rfl (hop o b)
+  | decode => exact hdec.1
+  | decodeCtx c =>
+    cases c with
+    | false => exact hdec.2
+    | true => exact sim_cancel a p hw hsw hsc (Or.inr (Or.inr ⟨k, lost, hph⟩)) he
+  | peekHeader =>
+    have hspec : specStep p .peekHeader = (p, some ((stepPeekHeader p.st).2.1, [])) := by unfold specStep; simp [hph]
+    rw [hspec]
+    have hp := stepPeekHeader_after_header p.st s1 hsc.inv_fresh rfl hh
+    have hm : stepPeekHeader a.d = (a.d, .header a.d.q.hdr, []) := by
+      unfold stepPeekHeader
+      rw [he]
+      show (match headerOnce a.d with | .ok s1 => _ | r => _) = _
+      rw [hho]
+    show Sim (a.advance (stepPeekHeader a.d).1) _ ∧ Meets (a.advance (stepPeekHeader a.d).1, (stepPeekHeader a.d).2.1, (stepPeekHeader a.d).2.2) _
+    rw [hm, hp.2, Api.advance_same, r2.hdr]
+    exact ⟨hsame, by intro x hx; cases hx; rfl⟩
+  | peekFileId =>
+    have hspec : specStep p .peekFileId = (p, some ((stepPeekFileId p.st).2.1, [])) := by unfold specStep; simp [hph]
+    rw [hspec]
+    cases hq : a.d.q.fileId with
+    | none => rw [hq] at hfid'; cases hfid'
+    | some f =>
+      have hfr : (stepPeekFileId p.st).2.1 = .fileId f := by
+        have : stepPeekFileId p.st = (a.d, .fileId f, evs1) := by
+          unfold stepPeekFileId
+          show (match headerOnce p.st with | .ok s1 => _ | r => _) = _
+          rw [hh]
+          simp only [hpk, hq]
+        rw [this]
+      have hm : stepPeekFileId a.d = (a.d, .fileId f, []) := by
+        unfold stepPeekFileId
+        rw [he]
+        show (match headerOnce a.d with | .ok s1 => _ | r => _) = _
+        rw [hho]
+        have : peekLoop (fuelOf a.d) a.d = (a.d, [], .ok ()) := peekLoop_done _ a.d (by rw [hq]; rfl)
+        simp only [this, hq]
+      show Sim (a.advance (stepPeekFileId a.d).1) _ ∧ Meets (a.advance (stepPeekFileId a.d).1, (stepPeekFileId a.d).2.1, (stepPeekFileId a.d).2.2) _
+      rw [hm, hfr, Api.advance_same]
+      exact ⟨hsame, by intro x hx; cases hx; rfl⟩
+  | discard =>
+    cases lost with
+    | true =>
+      have hspec : specStep p .discard = ({ p with ph := .blind }, none) := by unfold specStep; simp [hph]
+      rw [hspec]
+      exact ⟨⟨hw, hsw, hsc, trivial⟩, by intro x hx; cases hx⟩
+    | false =>
+      obtain ⟨c, rc, ucur, _⟩ := r2
+      have hle : ¬ a.d.q.cur > a.d.q.hdr.dataSize := by
+        intro h; rw [decide_eq_true h] at hlost; cases hlost
+      have hclen : c.length < 4294967296 := by
+        have : s1.rest.length = c.length + a.d.rest.length := by rw [rc, List.length_append]
+        have := hf.2.2.1; have := hsc.2; omega
+      have hcur : a.d.q.cur = c.length := by rw [ucur, hf.1, Nat.zero_add, Nat.mod_eq_of_lt hclen]
+      have hhdr : a.d.q.hdr = s1.q.hdr := by
+        have := peekLoop_sat (fuelOf s1) s1 h1.1 (by simp [fuelOf])
+        rw [hpk] at this
+        exact this.2.2.1.hdr
+      have hdm := discard_mid p.o p.cur hsc.1 s1 a.d c hh rc hcur (by omega) hhdr ho he hd
+      exact sim_discard_alive a p hw hsw hsc (Or.inr (Or.inr ⟨k, hph⟩)) hdm.1 hdm.2.1 hdm.2.2 (Or.inl hn)
+  | next =>
+    have hspec : specStep p .next = (p, some (.bool true, [])) := by unfold specStep; simp [hph]
+    rw [hspec]
+    have hm : stepNext (a.n == 0) a.d = (a.d, .bool true, []) := by
+      have : (a.n == 0) = false := by simp; exact hn
+      rw [this]
+      unfold stepNext
+      rw [he]
+      show (match headerOnce a.d with | .ok s1 => _ | .err e => _ | .panic => _ | .hang => _) = _
+      rw [hho]
+    show Sim (a.advance (stepNext (a.n == 0) a.d).1) _ ∧ Meets (a.advance (stepNext (a.n == 0) a.d).1, (stepNext (a.n == 0) a.d).2.1, (stepNext (a.n == 0) a.d).2.2) _
+    rw [hm, Api.advance_same]
+    exact ⟨hsame, by intro x hx; cases hx; rfl⟩
+  | checkIntegrity => exact sim_ci a p hw hsw hsc (Or.inr (Or.inr ⟨k, lost, hph⟩)) he ho hi
+
+theorem sim_blind (a : Api) (p : Spec) (op : Op) (hph : p.ph = .blind) (hs : Sim a p) (hop : ∀ o b, op ≠ .reset o b) :
+    Sim (step a op).1 (specStep p op).1 ∧ Meets (step a op) (specStep p op).2 := by
+  have hspec : specStep p op = (p, none) := by
+    unfold specStep
+    cases op with
+    | reset o b => exact absurd rfl (hop o b)
+    | decodeCtx c => cases c <;> simp [hph]
+    | _ => simp [hph]
+  rw [hspec]
+  obtain ⟨hw, hsw, hsc, _⟩ := hs
+  refine ⟨⟨?_, hsw, hsc, by rw [hph]; trivial⟩, by intro x hx; cases hx⟩
+  rw [← hw]
+  cases op with
+  | reset o b => exact absurd rfl (hop o b)
+  | checkIntegrity =>
+    show (stepCheckIntegrity a).1.whole = a.whole
+    unfold stepCheckIntegrity
+    simp only
+    split
+    · rfl
+    · split <;> rfl
+  | _ => rfl
+
+/-- **one step of the simulation**: from related states, whatever is called (outside the open finding F09: no
+`PeekFileId` that reads past the data window), the results are those the specification demands and the states are related again -/
+theorem sim_step (a : Api) (p : Spec) (op : Op) (hs : Sim a p) (hop : OpSmall op) (hnp : kfPeekPast a op = false) :
+    Sim (step a op).1 (specStep p op).1 ∧ Meets (step a op) (specStep p op).2 := by
+  by_cases hr : ∃ o b, op = .reset o b
+  · obtain ⟨o, b, rfl⟩ := hr
+    exact sim_reset a p o b hop
+  · have hop' : ∀ o b, op ≠ .reset o b := fun o b h => hr ⟨o, b, h⟩
+    cases hph : p.ph with
+    | start => exact sim_start a p op hph hs hop' hnp
+    | header => exact sim_header a p op hph hs hop' hnp
+    | fileId k l => exact sim_fileId a p op k l hph hs hop'
+    | peekFailed e k => exact sim_peekFailed a p e k op hop' hph hs
+    | dead e => exact sim_dead a p e op hop' hph hs
+    | blind => exact sim_blind a p op hph hs hop'
+
+/-- no `PeekFileId` of the run reads past the data window of its sequence (the class of the open finding F09) -/
+def NoPeekPast : Api → List Op → Prop
+  | _, [] => True
+  | a, op :: ops => kfPeekPast a op = false ∧ NoPeekPast (step a op).1 ops
+
+instance : ∀ (a : Api) (ops : List Op), Decidable (NoPeekPast a ops)
+  | _, [] => isTrue trivial
+  | a, op :: ops =>
+    have := instDecidableNoPeekPast (step a op).1 ops
+    inferInstanceAs (Decidable (_ ∧ _))
+
+theorem sim_run : ∀ (ops : List Op) (a : Api) (p : Spec), Sim a p → (∀ op ∈ ops, OpSmall op) → NoPeekPast a ops →
+    ∀ x ∈ (run a ops).zip (specRun p ops), ∀ r, x.2 = some r → x.1 = r
+  | [], _, _, _, _, _ => by intro x hx; cases hx
+  | op :: ops, a, p, hs, hops, hnp => by
+    intro x hx r hr
+    have hstep := sim_step a p op hs (hops op (by simp)) hnp.1
+    unfold run specRun at hx
+    simp only [List.zip_cons_cons, List.mem_cons] at hx
+    rcases hx with rfl | hx
+    · exact hstep.2 r hr
+    · exact sim_run ops _ _ hstep.1 (fun o ho => hops o (by simp [ho])) hnp.2 x hx r hr
 end Fit.DecApi
